@@ -555,4 +555,144 @@ example : validNode schema "rectangle"
 -- and a length cut to precision 4 would not be a positiveDecimal
 example : validNode schema "rectangle" (rectangleNode "0.0000".toList "2.0".toList none) = false := by decide
 
+
+/-! ## 6. The whole document
+
+`seq_assembly` (CRProofs/Xsd.lean) is the general composition rule: an element whose type is a sequence of distinctly named
+element particles is valid if its attributes are, and its children are families of valid elements in particle order.
+Instantiated at the root it gives `C03_valid_doc_partial`. -/
+
+/-- the parts of a written document: header attributes and the object families in the order the writer appends them
+    (XMLFileWriter._add_all_objects_from_scenario / _add_all_planning_problems_from_planning_problem_set) -/
+structure Parts where
+  attrs : List (String × String)
+  location : Xml
+  tags : Xml
+  lanelets : List Xml
+  signs : List Xml
+  lights : List Xml
+  intersections : List Xml
+  statics : List Xml
+  dynamics : List Xml
+  phantoms : List Xml
+  environments : List Xml
+  problems : List Xml
+
+def Parts.families (p : Parts) : List (List Xml) :=
+  [[p.location], [p.tags], p.lanelets, p.signs, p.lights, p.intersections, p.statics, p.dynamics, p.phantoms,
+   p.environments, p.problems]
+
+def rootNode (p : Parts) : Xml := .node "commonRoad" p.attrs [] p.families.flatten
+
+/-- every member of the family is an element `name` that is valid against `type` -/
+def Fam (name type : String) (f : List Xml) : Prop := ∀ x ∈ f, x.name = name ∧ validNode schema type x = true
+
+def rootDecl : List AttrP := match schema.lookup "/commonRoad" with | some (.complex d _ _) => d | _ => []
+
+/-- **valid_doc (partial).** If the header attributes are valid, every object subtree is valid against the type of its
+    family, there is at least one lanelet and one planning problem, and the identity constraints hold, then the document
+    the writer assembles is valid against the schema: the families are appended in exactly the order of the root sequence. -/
+theorem C03_valid_doc_partial (p : Parts) (ha : attrsOk schema rootDecl p.attrs = true)
+    (hloc : Fam "location" "location" [p.location]) (htag : Fam "scenarioTags" "tag" [p.tags])
+    (hlan : Fam "lanelet" "lanelet" p.lanelets) (hsig : Fam "trafficSign" "trafficSign" p.signs)
+    (hlig : Fam "trafficLight" "trafficLight" p.lights) (hint : Fam "intersection" "intersection" p.intersections)
+    (hsta : Fam "staticObstacle" "staticObstacle" p.statics) (hdyn : Fam "dynamicObstacle" "dynamicObstacle" p.dynamics)
+    (hpha : Fam "phantomObstacle" "phantomObstacle" p.phantoms)
+    (henv : Fam "environmentObstacle" "environmentObstacle" p.environments)
+    (hpro : Fam "planningProblem" "planningProblem" p.problems)
+    (h1 : 1 ≤ p.lanelets.length) (h2 : 1 ≤ p.problems.length)
+    (hkeys : keysOk schema (rootNode p) = true) (hrefs : refsOk schema (rootNode p) = true) :
+    validDoc schema (rootNode p) = true := by
+  have hl : schema.lookup "/commonRoad" = some (.complex rootDecl false (schema.content "/commonRoad")) := by decide
+  have he : elemsOf (schema.content "/commonRoad") =
+      [{ name := "location", type := "location", min := 1, max := some 1 },
+       { name := "scenarioTags", type := "tag", min := 1, max := some 1 },
+       { name := "lanelet", type := "lanelet", min := 1, max := none },
+       { name := "trafficSign", type := "trafficSign", min := 0, max := none },
+       { name := "trafficLight", type := "trafficLight", min := 0, max := none },
+       { name := "intersection", type := "intersection", min := 0, max := none },
+       { name := "staticObstacle", type := "staticObstacle", min := 0, max := none },
+       { name := "dynamicObstacle", type := "dynamicObstacle", min := 0, max := none },
+       { name := "phantomObstacle", type := "phantomObstacle", min := 0, max := none },
+       { name := "environmentObstacle", type := "environmentObstacle", min := 0, max := none },
+       { name := "planningProblem", type := "planningProblem", min := 1, max := none }] := by decide
+  have any0 : ∀ (nm ty : String) (k : Nat), inRange { name := nm, type := ty, min := 0, max := none } k :=
+    fun _ _ _ => ⟨Nat.zero_le _, fun m hm => by cases hm⟩
+  have hf : FamsOk schema (elemsOf (schema.content "/commonRoad")) p.families := by
+    rw [he]
+    exact ⟨hloc, ⟨by simp, fun m hm => by cases hm; simp⟩, htag, ⟨by simp, fun m hm => by cases hm; simp⟩,
+           hlan, ⟨h1, fun m hm => by cases hm⟩, hsig, any0 _ _ _, hlig, any0 _ _ _, hint, any0 _ _ _, hsta, any0 _ _ _,
+           hdyn, any0 _ _ _, hpha, any0 _ _ _, henv, any0 _ _ _, hpro, ⟨h2, fun m hm => by cases hm⟩, trivial⟩
+  have hv : validNode schema "/commonRoad" (rootNode p) = true :=
+    seq_assembly hl (by decide) "commonRoad" p.attrs ha p.families hf (by simp [Parts.families])
+  have hn : schema.rootName = "commonRoad" := by decide
+  have hrt : schema.rootType = "/commonRoad" := by decide
+  unfold validDoc
+  rw [hrt, hv, hkeys, hrefs, hn]
+  simp [rootNode, Xml.name]
+
+/-- the header the writer sets (`_write_header`): time step size through `decimal_to_str`, the fixed version string,
+    free-text author / affiliation / source / benchmark id, today's date — valid for every finite time step size -/
+theorem C03_root_attrs_ok (dt : FloatRepr) (hdt : dt.Finite) (author affiliation source benchmark date : String)
+    (hdate : isDate date.toList = true) :
+    attrsOk schema rootDecl
+      [("timeStepSize", String.ofList (decimalToStr dt.repr)), ("commonRoadVersion", CR.Py.Gen.scenarioVersion),
+       ("author", author), ("affiliation", affiliation), ("source", source), ("benchmarkID", benchmark), ("date", date)] = true := by
+  have hd : rootDecl =
+      [{ name := "commonRoadVersion", type := "/commonRoad/@commonRoadVersion", required := true },
+       { name := "benchmarkID", type := "xs:string", required := true },
+       { name := "date", type := "xs:date", required := true },
+       { name := "author", type := "xs:string", required := true },
+       { name := "affiliation", type := "xs:string", required := true },
+       { name := "source", type := "xs:string", required := true },
+       { name := "timeStepSize", type := "xs:decimal", required := true }] := by decide
+  have s1 : simpleOf schema "xs:string" = some { base := .string } := by decide
+  have s2 : simpleOf schema "xs:date" = some { base := .date } := by decide
+  have s3 : simpleOf schema "xs:decimal" = some { base := .decimal } := by decide
+  have s4 : (simpleOf schema "/commonRoad/@commonRoadVersion").map (·.accepts CR.Py.Gen.scenarioVersion.toList) = some true := by decide
+  have hdec := decimal_accepts (decimalToStr_isDecimal hdt)
+  have hstr : ∀ v : String, ({ base := .string } : Simple).accepts v.toList = true := by intro v; simp [Simple.accepts]
+  have hdt' : ({ base := .date } : Simple).accepts date.toList = true := by simp [Simple.accepts, hdate]
+  rw [hd]
+  cases h4 : simpleOf schema "/commonRoad/@commonRoadVersion" with
+  | none => rw [h4] at s4; simp at s4
+  | some st =>
+    rw [h4] at s4
+    simp only [Option.map_some, Option.some.injEq] at s4
+    simp [attrsOk, s1, s2, s3, h4, s4, hstr, hdt', hdec]
+
+/-- what a complete model of the writer has to provide for the full statement -/
+structure WriterModel where
+  Input : Type
+  Expressible : Input → Prop
+  encode : Input → Xml
+
+/-- **valid_doc (full statement).** Every expressible input is encoded as a document that is valid against the schema,
+    including the identity constraints. -/
+def C03_valid_doc_full (W : WriterModel) : Prop := ∀ i, W.Expressible i → validDoc schema (W.encode i) = true
+
+/-- The instance that IS proved: inputs are the `Parts` whose object subtrees are valid against their family types.
+    Missing for the instance "Python scenario objects ↦ the real writer's tree": complete tree encoders (and their recursive
+    validity proofs) for lanelet, trafficSign, trafficLight, intersection, static/dynamic/phantom/environment obstacle
+    and planningProblem subtrees — for those, child order (C03_order_*), xs:all content (C03_*_all), enumerations (C03_enum_*)
+    and leaf grammar (section 1) are proved per node, and points / rectangles / circles completely (section 5); they would
+    be composed with `seq_assembly` / `validNode_complex` exactly as the root is composed here — and the key / keyref
+    clause, which rests on the uniqueness of ids in a Scenario (C09's invariant) and on references being resolvable
+    (part of "schema-expressible"). -/
+def partsWriter : WriterModel where
+  Input := Parts
+  Expressible p :=
+    attrsOk schema rootDecl p.attrs = true ∧ Fam "location" "location" [p.location] ∧ Fam "scenarioTags" "tag" [p.tags] ∧
+    Fam "lanelet" "lanelet" p.lanelets ∧ Fam "trafficSign" "trafficSign" p.signs ∧ Fam "trafficLight" "trafficLight" p.lights ∧
+    Fam "intersection" "intersection" p.intersections ∧ Fam "staticObstacle" "staticObstacle" p.statics ∧
+    Fam "dynamicObstacle" "dynamicObstacle" p.dynamics ∧ Fam "phantomObstacle" "phantomObstacle" p.phantoms ∧
+    Fam "environmentObstacle" "environmentObstacle" p.environments ∧ Fam "planningProblem" "planningProblem" p.problems ∧
+    1 ≤ p.lanelets.length ∧ 1 ≤ p.problems.length ∧ keysOk schema (rootNode p) = true ∧ refsOk schema (rootNode p) = true
+  encode := rootNode
+
+theorem C03_valid_doc_parts : C03_valid_doc_full partsWriter := by
+  intro p h
+  obtain ⟨a, b, c, d, e, f, g, h1, i, j, k, l, m, n, o, q⟩ := h
+  exact C03_valid_doc_partial p a b c d e f g h1 i j k l m n o q
+
 end CR.C03
